@@ -28,6 +28,7 @@ RULE = (
     "read interleaved with the active image), VDI parents; every configuration whose parent cannot be resolved must "
     "raise at open. Oracle: top-down overlay of the layer models per sector. Non-trivial: depth >= 2 with sectors "
     "served from >= 2 different layers; distinct = (format, depth, config, layer maps)."
+    " Every stream additionally goes through: continuation sequences (read, visit elsewhere or have another user move the shared handles, resume at the earlier end / buffer end), reads under an injected transient backend I/O error followed by a retry on the same object (the failed call may raise; returned bytes must be right), and long reads (whole disk up to 24 MiB, else 6-24 MiB windows)."
 )
 ASSUMPTIONS = [
     "writers/content models as in C01..C06; layered semantics per each format's specification",
